@@ -59,6 +59,9 @@ def schedules(tier):
         {"name": "P1", "strays": [], "reply": 0.05, "expect": "value"},
         {"name": "P2", "strays": [], "reply": 0.5, "expect": "value"},
         {"name": "P3", "strays": [0.2], "reply": 0.6, "expect": "value"}]})
+    # signals delivered to the thread that is blocked in the request (sync client): whether the call then raises
+    # OSError(EINTR) or carries on, it must not wait a fresh timeout per signal
+    out.append({"name": "S-signals", "signals": [0.6, 1.2, 1.8], "strays": [], "reply": None, "expect": "timeout", "sync_only": True})
     out.append({"name": "H-timeout-then-late-reply", "seq": [
         {"name": "H1a", "strays": [0.6], "reply": None, "expect": "timeout"},
         {"name": "H1b", "strays": [], "reply": 0.75, "expect": "value"},
@@ -94,6 +97,21 @@ def run_case(cfg, agent, drv, sch, serial):
     n0 = len(agent.log)
     d = Drift()
     d.start()
+    if sch.get("signals"):
+        import signal
+        main_id = threading.main_thread().ident
+
+        def kicker():
+            t_start = time.perf_counter()
+            for s in sch["signals"]:
+                rest = t_start + s * T - time.perf_counter()
+                if rest > 0:
+                    time.sleep(rest)
+                try:
+                    signal.pthread_kill(main_id, signal.SIGUSR1)
+                except Exception:
+                    pass
+        threading.Thread(target=kicker, daemon=True).start()
     t0 = time.perf_counter()
     out = drv.call("get", B.oid_text(OID))
     dur = time.perf_counter() - t0
@@ -111,6 +129,8 @@ def judge(sch, out, dur, serial):
     if sch["expect"] == "timeout":
         if out[0] == "ok":
             return "late", "a reply that arrived %.2f x timeout after the request was delivered (value %r); the call must have raised TimeoutError at %.2fs" % (sch["reply"] or 0, out[1], T)
+        if sch.get("signals") and out[0] == "exc" and "OSError" in out[1]["mro"] and dur <= bound:
+            return None  # interrupted system call surfaced as OSError, in time: allowed
         if not (out[0] == "exc" and out[1]["cls"] == "TimeoutError"):
             return "class", "expected TimeoutError, got %s" % repr(out)[:120]
         if dur > bound:
@@ -144,8 +164,12 @@ def worker(job):
             flat += [dict(p, keep_session=True, history=sch["name"], policed=sch.get("policed", False)) for p in sch["seq"]]
         else:
             flat.append(sch)
+    import signal
+    signal.signal(signal.SIGUSR1, lambda *a: None)
     cur_hist = None
     for sch in flat:
+        if sch.get("sync_only") and cfg.client != "sync":
+            continue
         prog.mark({"cfg": cfg.key(), "schedule": sch["name"]})
         if sch.get("history") != cur_hist:
             cur_hist = sch.get("history")
